@@ -44,7 +44,7 @@ JOBS = [
 
 ]
 
-def _sha_loops(fn, helper, blk):
+def _sha_loops(fn, helper, blk, weak=False):
     dig = blk
     st = "xv_sha_state == %d && xv_sha_ctx == scratch && xv_phrase_absorbed >= 3"
     # the stretching loop runs exactly the parsed number of rounds (C01, C11):
@@ -63,20 +63,23 @@ def _sha_loops(fn, helper, blk):
          "invariant": "cnt <= 271 && " + st % 1, "decreases": "271 - cnt"},
         {"function": fn, "anchor": "for (cnt = 0; cnt < rounds; ++cnt)",
          # before the first round the last digest computed is S (in s_bytes), afterwards it is `result`
-         "invariant": "cnt <= rounds && rounds >= 1000 && " + rounds_ok + " && " + st % 0
-                      + " && (cnt == 0 || (" + _last_eq("xv_sha_last", "result", dig) + "))",
+         # (the memory-safety variant carries only what its own obligations need: the digest-equality and
+         #  cost clauses make its formula exceed 17 GB)
+         "invariant": ("cnt <= rounds && " + st % 0) if weak else
+                      ("cnt <= rounds && rounds >= 1000 && " + rounds_ok + " && " + st % 0
+                       + " && (cnt == 0 || (" + _last_eq("xv_sha_last", "result", dig) + "))"),
          "decreases": "rounds - cnt"},
     ]
 
-SHA_EXTRA = {"late_src": ["models/snprintf.c"], "timeout": 5400, "mem_gb": 10, "set_cap": 128, "tier": "thorough"}
+SHA_EXTRA = {"late_src": ["models/snprintf.c"], "timeout": 5400, "mem_gb": 20, "set_cap": 128, "tier": "thorough"}
 JOBS += [
     _method("sha256crypt", "M_sha256crypt", _sha_loops("_crypt_crypt_sha256crypt_rn", "SHA256_Update_recycled", 32),
             ["crypt_sha256crypt_rn", "SHA256_Update_recycled"], extra=SHA_EXTRA),
     _method("sha512crypt", "M_sha512crypt", _sha_loops("_crypt_crypt_sha512crypt_rn", "sha512_process_recycled_bytes", 64),
             ["crypt_sha512crypt_rn", "sha512_process_recycled_bytes"], extra=SHA_EXTRA),
-    _method("sha256crypt", "M_sha256crypt", _sha_loops("_crypt_crypt_sha256crypt_rn", "SHA256_Update_recycled", 32),
+    _method("sha256crypt", "M_sha256crypt", _sha_loops("_crypt_crypt_sha256crypt_rn", "SHA256_Update_recycled", 32, weak=True),
             ["crypt_sha256crypt_rn", "SHA256_Update_recycled"], weak=True, extra=SHA_EXTRA),
-    _method("sha512crypt", "M_sha512crypt", _sha_loops("_crypt_crypt_sha512crypt_rn", "sha512_process_recycled_bytes", 64),
+    _method("sha512crypt", "M_sha512crypt", _sha_loops("_crypt_crypt_sha512crypt_rn", "sha512_process_recycled_bytes", 64, weak=True),
             ["crypt_sha512crypt_rn", "sha512_process_recycled_bytes"], weak=True, extra=SHA_EXTRA),
 
 ]
@@ -167,8 +170,9 @@ JOBS.append({"name": "sha1crypt", "props": ["C01", "C03", "C04", "C05", "C06", "
                         "invariant": "i >= 1 && (i <= iterations || i == 1) && g_calls == i && h_args_ok && h1_len == __CPROVER_loop_entry(h1_len) && h1_at_j == __CPROVER_loop_entry(h1_at_j)", "decreases": "iterations - i",
                         "assigns": "i, g_calls, h_args_ok, h1_len, h1_at_j, __CPROVER_object_whole(hmac_buf)"}],
              "cases": [("nd%d" % k, "nd == %d" % k) for k in range(21)],
-             "cases_quick": ["nd0", "nd1", "nd5", "nd10", "nd11", "nd20"],
-             "cases_quick_note": "quick tier: iteration fields of 0, 1, 5, 10, 11 and 20 digits; thorough tier: every length 0..20 (exhaustive for the stated domain)",
+             # one case is about 4 minutes of solver time on an idle core; the quick commands have to stay well under 15 minutes
+             "cases_quick": ["nd1"],
+             "cases_quick_note": "quick tier: a 1-digit iteration field only; thorough tier: every length 0..20 (exhaustive for the stated domain)",
              "unwind": 10, "bounds": {"SPAN": 64, "STR": 32, "SPANEXACT": 24, "PCTS": 104}, "mem_gb": 6, "timeout": 2400, "no_native": True,
              "bound": "strlen (setting) < 136, salt field of at most 104 characters (the first size check of the function assumes 64; the overrun it missed needs 65 or more)",
              "assumptions": ["hmac_sha1_process_data replaced by its contract (job hmac_sha1)", "A-dec for the printed iteration count"]})
